@@ -58,6 +58,16 @@ def gen(rnd):
         g.update(kind="clock", go=go, movetime=0, time=t)
     g["mode"] = rnd.choice(["plain", "plain", "plain", "stop", "ponderhit", "ponderstop"])
     g["tb"] = False
+    if rnd.random() < 0.15:
+        # soft limit close to the hard limit (few moves to go, or both clamped to clock - buffer) with a budget of a few hundred
+        # thousand nodes: the search is deep in an iteration when the limits pass, and every scaling of the soft limit shows
+        t = rnd.randint(500, 8000)
+        inc = rnd.choice([0, 0, t, 2 * t])
+        wt, bt, wi, bi = (t, t, inc, inc)
+        mtg = rnd.choice([1, 1, 2, 3]) if inc == 0 else 0
+        go = f"wtime {wt} btime {bt} winc {wi} binc {bi}" + (f" movestogo {mtg}" if mtg else "")
+        g.update(root=rnd.choice(ROOTS_MANY), one=False, buffer=rnd.choice([1, 10, 50]), maxnps=0, limit_strength=False,
+                 kind="clock", go=go, movetime=0, time=t, mode="plain")
     if rnd.random() < 0.12:
         # table generation only starts with a hard limit of 3 s or more (or none: pondering); the command that ends the search arrives
         # while the table is being generated
